@@ -337,18 +337,23 @@ Record Q1 (s : st) (i : nat) (k : task_kind) : Prop := {
 Lemma Q1_step s e i k : Q1 s i k -> (forall o, e <> EDone i o) ->
   snd (step s e) = [] /\ Q1 (fst (step s e)) i k /\ sent (fst (step s e)) = sent s.
 Proof.
-  intros [P M [L A] T] NE. destruct e as [sl| |j o|]; cbn [ServerProto.step].
-  - destruct (tr s); [|repeat split; auto].
+  intros Q NE. pose proof Q as [P M [L A] T].
+  assert (Same : snd (s, @nil action) = [] /\ Q1 (fst (s, @nil action)) i k /\ sent (fst (s, @nil action)) = sent s)
+    by (split; [reflexivity|split; [exact Q|reflexivity]]).
+  destruct e as [sl| |j o|]; cbn [ServerProto.step].
+  - destruct (tr s); [|exact Same].
     destruct (feed_trailing sl s L A) as [F1 [Q1' Q2 Q3 Q4 Q5 Q6 Q7 Q8]].
     destruct (feed s sl) as [s2 a2]. cbn [fst snd] in *.
     split; [exact F1|]. split; [|exact Q1']. constructor; try congruence. split; congruence.
-  - destruct (timer s); try contradiction; repeat split; auto.
+  - destruct (timer s) eqn:Tm; [exfalso; apply T; reflexivity|exact Same|exact Same].
   - unfold ServerProto.task_done. rewrite P. cbn [take_task].
     destruct (Nat.eqb i j) eqn:E; [apply Nat.eqb_eq in E; subst j; exfalso; apply (NE o); reflexivity|].
-    cbn. repeat split; auto.
-  - destruct (tr s); [|repeat split; auto]. cbn [fst snd].
+    exact Same.
+  - destruct (tr s); [|exact Same]. cbn [fst snd].
     split; [reflexivity|]. split; [|cbn; rewrite cancel_timer_eq; reflexivity].
-    constructor; cbn; try (rewrite cancel_timer_eq; cbn; assumption).
+    constructor; cbn.
+    + rewrite cancel_timer_eq. exact P.
+    + exact M.
     + split; cbn; rewrite cancel_timer_eq; assumption.
     + apply cancel_timer_not_armed.
 Qed.
